@@ -168,7 +168,27 @@ class ExternMixin:
             self.assume(z3.And(x >= lo, x <= hi))
         return SV('opq', t, 'datetime')
 
-    opq_methods = {'datetime.astimezone': lambda self, recv, args, kw, node: self.dt_astimezone(recv, args, kw, node),
+    def dt_timetuple(self, recv, utc):
+        """X-DT: d.utctimetuple() holds the UTC calendar fields of d when d is AWARE; for a naive d it holds d's own fields unconverted (python
+        takes a naive datetime as UTC there, while astimezone takes it as local time).  d.timetuple(): d's own fields, never converted."""
+        t = self.ufunc('dt_utctimetuple' if utc else 'dt_timetuple', OPQ, OPQ)(recv.t)
+        own = {'tm_year': 'year', 'tm_mon': 'month', 'tm_mday': 'day', 'tm_hour': 'hour', 'tm_min': 'minute', 'tm_sec': 'second'}
+        rng = {'tm_year': (1, 9999), 'tm_mon': (1, 12), 'tm_mday': (1, 31), 'tm_hour': (0, 23), 'tm_min': (0, 59), 'tm_sec': (0, 59)}
+        aware = z3.Not(self.ufunc('is_none', OPQ, BOOL)(self.ufunc('datetime_tzinfo', OPQ, OPQ)(recv.t)))
+        u = self.ufunc('dt_utc', OPQ, OPQ)(recv.t)
+        for f, (lo, hi) in rng.items():
+            x = self.ufunc(f'timetuple_{f}', OPQ, INT)(t)
+            self.assume(z3.And(x >= lo, x <= hi))
+            mine = self.ufunc(f'datetime_{own[f]}', OPQ, INT)(recv.t)
+            if utc:
+                self.assume(z3.If(aware, x == self.ufunc(f'datetime_{own[f]}', OPQ, INT)(u), x == mine))
+            else:
+                self.assume(x == mine)
+        return SV('opq', t, 'timetuple')
+
+    opq_methods = {'datetime.utctimetuple': lambda self, recv, args, kw, node: self.dt_timetuple(recv, True),
+                   'datetime.timetuple': lambda self, recv, args, kw, node: self.dt_timetuple(recv, False),
+                   'datetime.astimezone': lambda self, recv, args, kw, node: self.dt_astimezone(recv, args, kw, node),
                    'datetime.replace': lambda self, recv, args, kw, node: self.dt_replace(recv, args, kw, node)}
 
     def bi_round(self, args, kw, node):
